@@ -582,7 +582,7 @@ impl ExecutableContent for SendParameters {
         // A conformant document MUST NOT specify "namelist" or <param> with <content>.
         if self.content.is_some() {
             if let Some(content_data) = datamodel.evaluate_content(&self.content) {
-                content = Some(content_data.lock().unwrap().clone())
+                content = Some(content_data.lock().unwrap().deep_clone())
             }
         } else {
             datamodel.evaluate_params(&self.params, &mut data_vec);
@@ -593,7 +593,7 @@ impl ExecutableContent for SendParameters {
                         return false;
                     }
                     Ok(value) => {
-                        data_vec.push(ParamPair::new(name.as_str(), &value.lock().unwrap()));
+                        data_vec.push(ParamPair::new_moved(name.clone(), value.lock().unwrap().deep_clone()));
                     }
                 }
             }
